@@ -233,9 +233,9 @@ func testSchedGroups(t *testing.T, prop string) {
 		return
 	}
 	deadline := rep.Deadline(10 * time.Minute)
-	for _, p := range parts {
+	for pi, p := range parts {
 		R := rep.New(prop, p.name())
-		e := &sched.Explorer{Bound: bound, Shard: shard, NShards: nsh, ShardDepth: 2, Deadline: deadline}
+		e := &sched.Explorer{Bound: bound, Shard: shard, NShards: nsh, ShardDepth: 2, Deadline: rep.Share(deadline, pi, len(parts))}
 		e.Run = func(prefix []int, expect []string) *sched.Exec {
 			x, _ := sgExec(t, p, prefix, expect, false)
 			return x
